@@ -671,8 +671,9 @@ def _initialize_metric_mahalanobis(input, init='identity', random_state=None,
   n_features = input.shape[-1]
   if isinstance(init, np.ndarray):
     # we copy the array, so that if we update the metric, we don't want to
-    # update the init
-    init = check_array(init, copy=True)
+    # update the init (as floats: the solvers update the metric in place,
+    # which an integer array cannot hold)
+    init = check_array(init, copy=True, dtype=np.float64)
 
     # Assert that init.shape[1] = n_features
     if init.shape != (n_features,) * 2:
